@@ -206,6 +206,60 @@ theorem extend_keeps_type_resolvers_fixed (ext : Ext) (s : Schema) (h : Heap)
 
 example : (names s0).Nodup ∧ (∀ e, e ∈ zed.newTypes → e.1 ∉ names s0) ∧ (("Pet", 1) ∈ s0.types) := by decide
 
+/-! #### heal: what is established at each hook, and fuel -/
+
+/-- PARTIAL form of `heal_closed` (argument / input-field level): whatever `_HealSchemaVisitor.on_argument` returns is an
+    argument whose type reference IS the registered object. -/
+theorem heal_argument_closed_partial (reg : List (String × Addr)) (h : Heap) (a a' : Addr) (g : ArgO)
+    (hr : h.readArg a = some g) (e : (onArgument .heal reg h a).2 = some a') :
+    argClosed (onArgument .heal reg h a).1 reg a' = true := by
+  simp only [onArgument, hr] at e ⊢
+  split at e
+  · cases e
+  · rename_i t ht
+    simp only [Option.some.injEq] at e
+    subst e
+    have hlt := read_lt h a _ (readArg_read hr)
+    simp only [argClosed, argShape, Heap.readArg, read_write_same h a _ hlt]
+    exact (healed_registered reg g.ty t ht).1
+
+/-- PARTIAL form of `heal_closed` (field level): the type reference of whatever `on_field`'s heal step returns IS the
+    registered object. Missing for the full `heal_closed` (closedB of the result of `healLoop` for every well-formed
+    schema): that later steps of the same round keep these facts (every heal write only re-points references to
+    registered objects, so they do — the planned proof is a `StepImp` relation preserved by all hooks), the assembly
+    over `visitTypes`, and fuel sufficiency (a second round never drops anything because the registered NAMES do not
+    change: `healLoop_names`). Tied meanwhile by the correspondence (`closedB` of the model = identity check on the
+    live objects after every step) and by the `decide` instances. -/
+theorem heal_field_type_closed_partial (reg : List (String × Addr)) (h : Heap) (a a' : Addr) (f : FieldO)
+    (hr : h.readField a = some f) (e : (healFieldType reg h a).2 = some a') :
+    ∃ f', (healFieldType reg h a).1.readField a' = some f' ∧ refOK reg f'.ty.base = true ∧ f'.args = f.args ∧ f'.name = f.name := by
+  simp only [healFieldType, hr] at e ⊢
+  split at e
+  · cases e
+  · rename_i t ht
+    simp only [Option.some.injEq] at e
+    subst e
+    have hlt := read_lt h a _ (readField_read hr)
+    exact ⟨{ f with ty := t }, by simp only [Heap.readField, read_write_same h a _ hlt], (healed_registered reg f.ty t ht).1, rfl, rfl⟩
+
+/-- fuel only has to be large enough: more fuel never changes the result of `fix_type_references` -/
+theorem healLoop_fuel_mono (cfg : Cfg) : ∀ (fuel : Nat) (s : Schema) (h : Heap) (r : Heap × Schema),
+    healLoop cfg fuel s h = some r → healLoop cfg (fuel + 1) s h = some r := by
+  intro fuel
+  induction fuel with
+  | zero => intro s h r e; simp [healLoop] at e
+  | succ fuel ih =>
+    intro s h r e
+    rw [healLoop] at e
+    rw [healLoop]
+    split at e
+    · rename_i hb
+      rw [if_pos hb]
+      exact ih _ _ r e
+    · rename_i hb
+      rw [if_neg hb]
+      exact e
+
 /-- the working tree's variant (re-extracted on every run) is the deep-clone one: the theorem applies to it -/
 theorem current_clone_frames_source (hd : PyGql.Generated.HeapCfg.currentCfg.deepClone = true) :
     CloneFramesClosedSource PyGql.Generated.HeapCfg.currentCfg := clone_frames_source _ hd
